@@ -25,11 +25,15 @@ CATCHES = {
     "a": L("a"), "b": L("b"), "one": L(1), "onef": L(1.0),
     "list": ("list", [L(1), L(2)]), "null": L(None),
     "map": ("map", [(L("k"), L(1))]), "ERROR": L("ERROR"),
+    # a proper superset of the map that is raised, and the list/set twins
+    "mapsup": ("map", [(L("k"), L(1)), (L("j"), L(2))]),
+    "set12": ("set", [L(1), L(2)]),
     "var": V("cv"), "raises": V("no_such_name"),
 }
 FRAMES = ["do", "c:a", "c:one", "c:list", "c:null", "c:ERROR", "c:var",
           "c:raises", "c:map", "all", "fin", "c:a+fin", "all+fin",
-          "c:b|c:a", "c:a|all", "c:onef+fin", "func", "funcargs", "for",
+          "c:b|c:a", "c:a|all", "c:onef+fin", "c:mapsup|c:map",
+          "c:set12|c:list", "func", "funcargs", "for",
           "while", "for:set", "for:map", "for:str", "for:input",
           "cb:input", "cb:list", "eval:str", "eval:node"]
 # what the loop frames iterate (two iterations each); an input stream is a
